@@ -500,7 +500,7 @@ def is_F42(c, im, clause):
             and isinstance(body[k].value.value, str) and body[k].value.value == im.get("doc_out"))
 
 
-CLASSIFIERS = [("F46", is_F46), ("F47", is_F47), ("F43", is_F43), ("F36", is_F36), ("F39", is_F39), ("F34", is_F34), ("F41", is_F41), ("F42", is_F42)]
+CLASSIFIERS = [("F47", is_F47), ("F43", is_F43), ("F36", is_F36), ("F39", is_F39), ("F34", is_F34), ("F41", is_F41), ("F42", is_F42)]
 
 
 def oracle(c, im):
